@@ -299,7 +299,7 @@ def run(chk):
     # deep / wide extremes
     if not chk.replay:
         deep = 1
-        for _ in range(60 if chk.tier == "quick" else 400):
+        for _ in range(60 if chk.tier == "quick" else 120):   # serde_json (the host side of the harness) refuses documents nested deeper than 128
             deep = [deep] if rng.chance(1, 2) else {"d": deep}
         docs.append(deep)
         docs.append({"k%d" % i: i for i in range(300)})
